@@ -75,6 +75,22 @@ fn decode_entry(json_str: &str) -> Result<WalEntry, String> {
     }
 }
 
+/// Parse the payload of one WAL line: a single entry, or a JSON array holding all entries of one
+/// multi-update append. A batch is all-or-nothing: if any element is unreadable the whole line is
+/// rejected, so recovery never applies part of an insert/delete request.
+fn decode_line(json_str: &str) -> Result<Vec<WalEntry>, String> {
+    if json_str.starts_with('[') {
+        let items: Vec<serde_json::Value> =
+            serde_json::from_str(json_str).map_err(|e| e.to_string())?;
+        items
+            .iter()
+            .map(|item| decode_entry(&item.to_string()))
+            .collect()
+    } else {
+        decode_entry(json_str).map(|e| vec![e])
+    }
+}
+
 /// Write-Ahead Log writer
 pub struct PersistWal {
     /// Path to WAL directory
@@ -185,8 +201,24 @@ impl PersistWal {
         updates: &[Update],
         flush: bool,
     ) -> StorageResult<()> {
-        for update in updates {
-            self.append_inner(shard, update, false)?; // Don't flush individual entries
+        if updates.len() == 1 {
+            self.append_inner(shard, &updates[0], false)?;
+        } else if !updates.is_empty() {
+            // One line (one checksum) for the whole request. With one line per update a torn
+            // write - power loss before the fsync completed - could leave a prefix of the lines
+            // intact, and recovery would apply part of an unacknowledged multi-tuple insert.
+            let mut parts = Vec::with_capacity(updates.len());
+            for update in updates {
+                parts.push(encode_entry(&WalEntry {
+                    shard: shard.to_string(),
+                    update: update.clone(),
+                })?);
+            }
+            let json = format!("[{}]", parts.join(","));
+            let checksum = Self::crc32_hex(json.as_bytes());
+            let writer = self.ensure_writer()?;
+            writeln!(writer, "{checksum}:{json}")?;
+            self.entries_written += updates.len();
         }
         if flush {
             // Flush once at the end for the whole batch and sync to disk
@@ -255,8 +287,8 @@ impl PersistWal {
                 }
             }
 
-            match decode_entry(json_str) {
-                Ok(entry) => entries.push(entry),
+            match decode_line(json_str) {
+                Ok(batch) => entries.extend(batch),
                 Err(e) => {
                     tracing::warn!(
                         line = i + 1,
@@ -431,6 +463,32 @@ mod tests {
         let entries = wal.read_all().unwrap();
         assert_eq!(entries.len(), 1);
         assert!(lossless::same_bits(&entries[0].update.data, &tuple));
+    }
+
+    #[test]
+    fn test_wal_batch_is_all_or_nothing() {
+        let temp = TempDir::new().unwrap();
+        let mut wal = PersistWal::new(temp.path().to_path_buf()).unwrap();
+        wal.append("db:r", &Update::insert(Tuple::from_pair(0, 0), 1))
+            .unwrap();
+        let batch: Vec<Update> = (1..=3)
+            .map(|i| Update::insert(Tuple::from_pair(i, i), 2))
+            .collect();
+        wal.append_batch("db:r", &batch).unwrap();
+        assert_eq!(wal.read_all().unwrap().len(), 4);
+        drop(wal);
+
+        // Tear the batch line: keep only a prefix of it (power loss before fsync completed)
+        let path = temp.path().join("current.wal");
+        let content = std::fs::read_to_string(&path).unwrap();
+        let first_line_len = content.find('\n').unwrap() + 1;
+        let torn = &content[..first_line_len + (content.len() - first_line_len) * 2 / 3];
+        std::fs::write(&path, torn).unwrap();
+
+        let wal = PersistWal::new(temp.path().to_path_buf()).unwrap();
+        let entries = wal.read_all().unwrap();
+        assert_eq!(entries.len(), 1, "a torn batch must not be applied partially");
+        assert_eq!(entries[0].update.data, Tuple::from_pair(0, 0));
     }
 
     #[test]
